@@ -6,6 +6,7 @@ package main
 import (
 	"bytes"
 	"fmt"
+	"io"
 	"reflect"
 	"regexp"
 	"sort"
@@ -394,5 +395,11 @@ func dumpCase(expr, indent string, level int) (req, ans string) {
 	}()
 	var buf bytes.Buffer
 	bexpr.VerifAST(ev).ExpressionDump(&buf, indent, level)
+	// the rendering is a function of the tree: a writer that offers nothing but Write gets the same bytes
+	var plain bytes.Buffer
+	bexpr.VerifAST(ev).ExpressionDump(struct{ io.Writer }{&plain}, indent, level)
+	if plain.String() != buf.String() {
+		return req, "ok-writer-dependent " + hx(plain.String())
+	}
 	return req, "ok " + hx(buf.String())
 }
